@@ -1,7 +1,401 @@
-//! C22 — not implemented yet (see DESIGN.md section 4).
-use kit::Run;
-use serde_json::Value;
+//! C22 — saving and restoring a working store preserves the manifest.
+//! S-seq: builder definitions (kit::defs generator, plus resources: generator icon, ingredient thumbnails, a tampered
+//! signed ingredient) x archive chains of length 1..3 (Builder::to_archive -> Builder::from_context(..).with_archive).
+//! Oracle: the report of sign(restore^k(b)) equals the report of sign(b) on the content the property names: title,
+//! claim generator, assertions (label, kind, data), ingredients (with validation results, manifests, thumbnails),
+//! resources (compared by content), redactions — after kit::canon normalisation of labels / instance ids.
+//!
+//! Archive kinds: this tree can only WRITE the `application/c2pa` working-store archive (to_archive returns
+//! NotImplemented for builder.generate_c2pa_archive=false); that is asserted at start-up. The legacy ZIP reader is
+//! outside "an archive it wrote".
+//!
+//! Mutants caught (tools/mutant_run.sh H <diff> C22 quick):
+//!   /verif/mutants/C22-into-builder-drops-ingredient-thumbnail.diff
 
-pub fn run(_run: &Run, _replay: Option<&Value>) {
-    kit::ev::machinery("C22: check not implemented");
+use c2pa::{Builder, BuilderIntent, DigitalSourceType, Reader};
+use kit::{assets, defs::{self, Def}, par, sdk, Run};
+use serde_json::{json, Value};
+use sha2::{Digest, Sha256};
+use std::io::Cursor;
+
+#[derive(Clone, Debug)]
+pub struct Case {
+    pub def: Def,
+    pub ver: u8,
+    pub icon: bool,
+    /// 0 = ingredients as generated, 1 = ingredients carry explicit thumbnails (resources), 2 = plus a tampered signed ingredient
+    pub ing_variant: u8,
+    pub chain: usize,
+    pub asset: String,
+}
+impl Case {
+    pub fn to_json(&self) -> Value {
+        json!({"def": self.def.to_json(), "ver": self.ver, "icon": self.icon, "ing_variant": self.ing_variant, "chain": self.chain, "asset": self.asset})
+    }
+    pub fn from_json(v: &Value) -> Case {
+        Case {
+            def: Def::from_json(&v["def"]),
+            ver: v["ver"].as_u64().unwrap_or(2) as u8,
+            icon: v["icon"].as_bool().unwrap_or(false),
+            ing_variant: v["ing_variant"].as_u64().unwrap_or(0) as u8,
+            chain: v["chain"].as_u64().unwrap_or(1) as usize,
+            asset: v["asset"].as_str().unwrap_or("jpeg").to_string(),
+        }
+    }
+    pub fn id(&self) -> String {
+        format!("[{}] v={} icon={} ing={} chain={} {}", self.def.id(), self.ver, self.icon as u8, self.ing_variant, self.chain, self.asset)
+    }
+}
+
+pub fn icon_bytes() -> Vec<u8> {
+    let base = assets::png();
+    let iend = base.len() - 12;
+    let mut v = base[..iend].to_vec();
+    v.extend(assets::png_chunk(b"tEXt", b"Comment\0icon"));
+    v.extend_from_slice(&base[iend..]);
+    v
+}
+
+pub fn ing_thumb_bytes(i: usize) -> Vec<u8> {
+    let base = assets::png();
+    let iend = base.len() - 12;
+    let mut v = base[..iend].to_vec();
+    v.extend(assets::png_chunk(b"tEXt", format!("Comment\0ingredient thumbnail {i}").as_bytes()));
+    v.extend_from_slice(&base[iend..]);
+    v
+}
+
+/// Signed kit JPEG with one entropy-coded byte flipped (manifest intact, data hash broken).
+pub fn tampered_jpeg(claim_version: u8) -> Vec<u8> {
+    let mut v = if claim_version < 2 { defs::signed_jpeg_v1().clone() } else { defs::signed_jpeg().clone() };
+    let n = v.len();
+    // the kit JPEG ends with ... 0x7F 0xA5 0x33 FF D9 ; flip the byte before EOI's predecessor
+    v[n - 4] ^= 0x01;
+    v
+}
+
+pub fn build(c: &Case) -> c2pa::Result<Builder> {
+    let mut d = c.def.definition(c.ver, None);
+    if c.icon {
+        d["claim_generator_info"][0]["icon"] = json!({"format": "image/png", "identifier": "icon.png"});
+    }
+    let mut b = Builder::from_context(sdk::ctx()).with_definition(d)?;
+    b.set_intent(BuilderIntent::Create(DigitalSourceType::DigitalCapture));
+    if c.icon {
+        b.add_resource("icon.png", Cursor::new(icon_bytes()))?;
+    }
+    if c.def.thumbnail {
+        b.set_thumbnail("image/png", &mut Cursor::new(defs::thumbnail_bytes()))?;
+    }
+    for (i, ing) in c.def.ingredient_inputs(c.ver).into_iter().enumerate() {
+        let mut j = json!({"title": ing.title, "relationship": ing.relationship});
+        if c.ing_variant >= 1 {
+            let id = format!("ingthumb{i}.png");
+            j["thumbnail"] = json!({"format": "image/png", "identifier": id});
+            b.add_resource(&id, Cursor::new(ing_thumb_bytes(i)))?;
+        }
+        b.add_ingredient_from_stream(j.to_string(), ing.mime, &mut Cursor::new(ing.data.clone()))?;
+    }
+    if c.ing_variant >= 2 {
+        b.add_ingredient_from_stream(r#"{"title":"ing-3 tampered.jpg","relationship":"componentOf"}"#, "image/jpeg", &mut Cursor::new(tampered_jpeg(c.ver)))?;
+    }
+    Ok(b)
+}
+
+/// sha256 hex of a resource, or a description of why it cannot be read.
+fn resource_digest(rd: &Reader, id: &str) -> String {
+    let mut buf = Cursor::new(Vec::new());
+    match par::guard(|| rd.resource_to_stream(id, &mut buf)) {
+        Ok(Ok(_)) => format!("sha256:{}", kit::ev::hex(&Sha256::digest(buf.get_ref()))),
+        Ok(Err(e)) => format!("unreadable:{}", sdk::err_kind(&e)),
+        Err(p) => format!("panic:{p}"),
+    }
+}
+
+/// Replace every resource reference {format, identifier} by {format, content digest}; drop hashes inside hashed URIs
+/// (they cover bytes whose content is compared elsewhere) and fields that are not manifest content.
+fn project(v: &mut Value, rd: &Reader) {
+    match v {
+        Value::Object(m) => {
+            if m.contains_key("identifier") && m.contains_key("format") {
+                if let Some(Value::String(id)) = m.get("identifier").cloned() {
+                    m.insert("identifier".into(), Value::String(resource_digest(rd, &id)));
+                }
+            }
+            if m.contains_key("url") && m.contains_key("hash") {
+                m.remove("hash");
+            }
+            // hard-binding assertions: the digest of the asset bytes (and its padding) is not manifest content
+            if m.get("label").and_then(|l| l.as_str()).map(|l| l.starts_with("c2pa.hash.")).unwrap_or(false) {
+                if let Some(Value::Object(d)) = m.get_mut("data") {
+                    for k in ["hash", "pad", "pad2"] {
+                        d.remove(k);
+                    }
+                }
+            }
+            for (_, x) in m.iter_mut() {
+                project(x, rd);
+            }
+        }
+        Value::Array(a) => {
+            for x in a.iter_mut() {
+                project(x, rd);
+            }
+        }
+        _ => {}
+    }
+}
+
+/// The compared content of a report: (field name, value) in a fixed order.
+pub fn content(rd: &Reader) -> Vec<(String, Value)> {
+    let mut raw: Value = serde_json::from_str(&rd.json()).unwrap_or(Value::Null);
+    project(&mut raw, rd);
+    let all = defs::rename_ids(&json!({"json": raw}));
+    let ms = &all["json"]["manifests"];
+    let m = &ms["<id0>"];
+    let mut out = vec![];
+    for f in ["title", "claim_generator_info", "thumbnail", "redactions", "metadata", "credentials"] {
+        out.push((f.to_string(), m[f].clone()));
+    }
+    let mut assertions = m["assertions"].as_array().cloned().unwrap_or_default();
+    assertions.sort_by_key(kit::canon::stable);
+    out.push(("assertions".into(), Value::Array(assertions)));
+    out.push(("ingredients".into(), m["ingredients"].clone()));
+    let mut others = serde_json::Map::new();
+    if let Some(o) = ms.as_object() {
+        for (k, x) in o {
+            if k != "<id0>" {
+                let mut x = x.clone();
+                if let Some(xo) = x.as_object_mut() {
+                    xo.remove("signature_info");
+                }
+                others.insert(k.clone(), x);
+            }
+        }
+    }
+    out.push(("ingredient-manifests".into(), Value::Object(others)));
+    out.push(("state".into(), json!(sdk::state_name(rd.validation_state()))));
+    let codes: Vec<Value> = all["json"]["validation_results"]["activeManifest"]["failure"].as_array().cloned().unwrap_or_default();
+    out.push(("active-manifest-failures".into(), Value::Array(codes)));
+    out
+}
+
+/// First path at which two JSON values differ.
+pub fn first_diff(a: &Value, b: &Value, path: &str) -> Option<String> {
+    match (a, b) {
+        (Value::Object(x), Value::Object(y)) => {
+            for (k, v) in x {
+                match y.get(k) {
+                    None => return Some(format!("{path}/{k} (only in original: {})", clip(&kit::canon::stable(v)))),
+                    Some(w) => if let Some(d) = first_diff(v, w, &format!("{path}/{k}")) { return Some(d); },
+                }
+            }
+            for (k, w) in y {
+                if !x.contains_key(k) {
+                    return Some(format!("{path}/{k} (only in restored: {})", clip(&kit::canon::stable(w))));
+                }
+            }
+            None
+        }
+        (Value::Array(x), Value::Array(y)) => {
+            if x.len() != y.len() {
+                return Some(format!("{path} (array length {} vs {})", x.len(), y.len()));
+            }
+            for (i, (v, w)) in x.iter().zip(y.iter()).enumerate() {
+                if let Some(d) = first_diff(v, w, &format!("{path}[{i}]")) { return Some(d); }
+            }
+            None
+        }
+        _ => if a == b { None } else { Some(format!("{path}: {} vs {}", clip(&kit::canon::stable(a)), clip(&kit::canon::stable(b)))) },
+    }
+}
+
+fn clip(s: &str) -> String {
+    if s.chars().count() > 160 { format!("{}..", s.chars().take(150).collect::<String>()) } else { s.to_string() }
+}
+
+pub enum Out {
+    /// original could not be built/signed/read: the case says nothing about archives
+    Vacuous(String),
+    /// (step, error) on the archive side
+    ArchiveError(String, String),
+    Compared(Vec<(String, String)>),
+}
+
+pub fn run_case(c: &Case) -> Result<Out, String> {
+    par::guard(|| {
+        let a = assets::by_name(&c.asset);
+        let signer = sdk::fixture_signer("ed25519");
+        let mut b = match build(c) {
+            Ok(b) => b,
+            Err(e) => return Out::Vacuous(format!("build: {e:?}")),
+        };
+        // archive chain first (to_archive takes &self), then sign the very same original builder
+        let mut cur: Option<Builder> = None;
+        for step in 1..=c.chain {
+            let mut buf = Cursor::new(Vec::new());
+            let r = match &cur { None => b.to_archive(&mut buf), Some(x) => x.to_archive(&mut buf) };
+            if let Err(e) = r {
+                return Out::ArchiveError(format!("to_archive#{step}"), format!("{e:?}"));
+            }
+            buf.set_position(0);
+            match Builder::from_context(sdk::ctx()).with_archive(buf) {
+                Ok(nb) => cur = Some(nb),
+                Err(e) => return Out::ArchiveError(format!("with_archive#{step}"), format!("{e:?}")),
+            }
+        }
+        if std::env::var("VERIF_DUMP").is_ok() {
+            for (name, bb) in [("original", Some(&b)), ("restored", cur.as_ref())] {
+                if let Some(bb) = bb {
+                    eprintln!("{name}: thumbnail {:?}", bb.definition.thumbnail);
+                    for i in &bb.definition.ingredients {
+                        eprintln!("{name}: ingredient {:?} thumbnail_ref {:?} active_manifest {:?}", i.title(), i.thumbnail_ref(), i.active_manifest());
+                    }
+                }
+            }
+        }
+        let orig = match sdk::sign(&mut b, signer.as_ref(), a.mime, &a.data) {
+            Ok((out, _)) => out,
+            Err(e) => return Out::Vacuous(format!("sign original: {e:?}")),
+        };
+        let rd_o = match sdk::read(sdk::ctx(), a.mime, &orig) {
+            Ok(r) => r,
+            Err(e) => return Out::Vacuous(format!("read original: {e:?}")),
+        };
+        let mut rb = cur.unwrap_or_else(|| kit::ev::machinery("C22: chain of length 0"));
+        let rest = match sdk::sign(&mut rb, signer.as_ref(), a.mime, &a.data) {
+            Ok((out, _)) => out,
+            Err(e) => return Out::ArchiveError("sign-restored".into(), format!("{e:?}")),
+        };
+        let rd_r = match sdk::read(sdk::ctx(), a.mime, &rest) {
+            Ok(r) => r,
+            Err(e) => return Out::ArchiveError("read-restored".into(), format!("{e:?}")),
+        };
+        let co = content(&rd_o);
+        let cr = content(&rd_r);
+        let mut diffs = vec![];
+        for ((f, x), (_, y)) in co.iter().zip(cr.iter()) {
+            if let Some(d) = first_diff(x, y, "") {
+                diffs.push((f.clone(), d));
+            }
+        }
+        Out::Compared(diffs)
+    })
+}
+
+static STATS: std::sync::OnceLock<kit::defs::KeyStats> = std::sync::OnceLock::new();
+
+fn judge(run: &Run, c: &Case) {
+    let run = &Tap(run);
+    let r = run_case(c);
+    run.eval();
+    let cfg = format!("v={} ing={} icon={}", c.ver, c.ing_variant, c.icon as u8);
+    match r {
+        Err(p) => {
+            run.outcome("panic");
+            run.violation(format!("panic {cfg}"), format!("{}: {p}", c.id()), c.to_json());
+        }
+        Ok(Out::Vacuous(e)) => run.outcome(format!("vacuous:{}", e.split(':').next().unwrap_or(""))),
+        Ok(Out::ArchiveError(step, e)) => {
+            run.outcome(format!("archive-error:{step}"));
+            let kind = e.split(|ch: char| !ch.is_alphanumeric()).next().unwrap_or("").to_string();
+            let step0 = step.split('#').next().unwrap_or("").to_string();
+            run.violation(format!("archive-error step={step0} kind={kind} {cfg}"), format!("{}: {step}: {e}", c.id()), c.to_json());
+        }
+        Ok(Out::Compared(diffs)) => {
+            run.nontrivial(c.id());
+            if diffs.is_empty() {
+                run.outcome("equal");
+            } else {
+                run.outcome("differs");
+                for (f, d) in diffs {
+                    // key: the field, then where in it (indices stripped), then the configuration
+                    let loc: String = d.split(|ch| ch == ' ' || ch == ':').next().unwrap_or("").chars().filter(|ch| !ch.is_ascii_digit()).collect();
+                    run.violation(format!("content-differs field={f} at={loc} {cfg}"), format!("{}: {f}{d}", c.id()), c.to_json());
+                }
+            }
+        }
+    }
+}
+
+/// Run wrapper that also feeds the debug key histogram.
+struct Tap<'a>(&'a Run);
+impl Tap<'_> {
+    fn eval(&self) { self.0.eval() }
+    fn outcome(&self, c: impl Into<String>) { self.0.outcome(c) }
+    fn nontrivial(&self, c: impl Into<String>) { self.0.nontrivial(c) }
+    fn violation(&self, k: String, w: String, c: Value) {
+        STATS.get_or_init(Default::default).add(&k, &w);
+        self.0.violation(k, w, c)
+    }
+}
+
+pub fn run(run: &Run, replay: Option<&Value>) {
+    run.rule("cases = builder (generated definition x claim version x generator icon resource x ingredient variant {plain, explicit thumbnails, + tampered signed ingredient}) x archive chain length 1..3; \
+              the chain b -> to_archive -> with_archive is applied k times, then BOTH the original builder object and the restored one are signed over the same asset and read; \
+              non-trivial = distinct cases in which both signings and readings succeeded so the two reports were compared (title, claim generator, thumbnail, redactions, assertions, ingredients incl. validation results, \
+              ingredient manifests, resources by content digest, validation state and non-success codes).");
+    run.assume("only the application/c2pa working-store archive can be written by this tree (asserted at start-up); the legacy ZIP kind is restore-only and outside 'an archive it wrote'");
+    run.assume("hashes inside hashed URIs are not compared (the referenced content is); manifest labels and instance ids are compared up to renaming (kit::canon)");
+    run.assume("intent Create on the original builder, so that nothing is derived from the source asset at signing time; the restored builder is signed as restored");
+    if let Some(c) = replay {
+        let case = Case::from_json(c);
+        match run_case(&case) {
+            Ok(Out::Compared(d)) => println!("replay {}: {} differing field(s): {d:?}", case.id(), d.len()),
+            Ok(Out::Vacuous(e)) => println!("replay {}: vacuous {e}", case.id()),
+            Ok(Out::ArchiveError(s, e)) => println!("replay {}: {s}: {e}", case.id()),
+            Err(p) => println!("replay {}: panic {p}", case.id()),
+        }
+        judge(run, &case);
+        return;
+    }
+    // which archive kinds can be written?
+    {
+        let b = Builder::from_context(sdk::ctx_with(&[r#"{"builder":{"generate_c2pa_archive":false}}"#])).with_definition(r#"{"title":"t"}"#).unwrap_or_else(|e| kit::ev::machinery(format!("{e:?}")));
+        match b.to_archive(Cursor::new(Vec::new())) {
+            Err(c2pa::Error::NotImplemented(_)) => run.extra("legacy_zip_archive", json!("to_archive returns NotImplemented with builder.generate_c2pa_archive=false: only the application/c2pa kind exists on the write side")),
+            other => kit::ev::machinery(format!("C22: the legacy archive kind behaves differently than this check assumes ({:?}); extend the check to both kinds", other.map(|_| "Ok"))),
+        }
+        run.eval();
+    }
+    // determinism: same case twice
+    {
+        let c = Case { def: Def::rich(), ver: 2, icon: true, ing_variant: 2, chain: 2, asset: "jpeg".into() };
+        let show = |o: Result<Out, String>| match o { Ok(Out::Compared(d)) => format!("{d:?}"), Ok(Out::Vacuous(e)) => format!("vacuous {e}"), Ok(Out::ArchiveError(s, e)) => format!("{s} {e}"), Err(p) => p };
+        let (x, y) = (show(run_case(&c)), show(run_case(&c)));
+        run.evals(2);
+        if x != y {
+            kit::ev::machinery(format!("C22: the same case compared differently twice: {x} / {y}"));
+        }
+        run.sample(json!({"case": c.to_json(), "differences": x}));
+    }
+    let thorough = run.tier.is_thorough();
+    let defs_used: Vec<Def> = if thorough {
+        defs::all_defs()
+    } else {
+        let mut v = vec![];
+        for mask in [0u8, 0b000011, 0b110011] { for thumbnail in [false, true] { for ingredients in 0u8..3 { for actions in 0u8..3 {
+            v.push(Def { mask, thumbnail, ingredients, actions, extra: None });
+        }}}}
+        v.push(Def::full());
+        v
+    };
+    let mut cases = vec![];
+    for d in &defs_used { for ver in [1u8, 2] { for icon in [false, true] { for ing_variant in 0u8..3 {
+        if d.ingredients == 0 && ing_variant == 1 { continue; }
+        for chain in 1..=3usize {
+            cases.push(Case { def: d.clone(), ver, icon, ing_variant, chain, asset: "jpeg".into() });
+        }
+    }}}}
+    run.space(&format!("definitions({}) x claim version(2) x icon(2) x ingredient variant(3, explicit thumbnails only with ingredients) x chain length(3) on jpeg", defs_used.len()), cases.len() as u64, true);
+    let mut more = vec![];
+    for a in assets::base() { if a.name == "jpeg" { continue; } for chain in 1..=3usize { for ver in [1u8, 2] {
+        more.push(Case { def: Def::rich(), ver, icon: true, ing_variant: 2, chain, asset: a.name.into() });
+    }}}
+    run.space("rich definition with icon, thumbnails, tampered ingredient x every other base asset(12) x version(2) x chain length(3)", more.len() as u64, true);
+    par::for_each(&cases, |c| judge(run, c));
+    par::for_each(&more, |c| judge(run, c));
+    STATS.get_or_init(Default::default).dump("C22");
+    run.sample(json!({"case": cases[0].to_json()}));
+    run.sample(json!({"case": cases[cases.len() - 1].to_json(), "definition": cases[cases.len() - 1].def.definition(2, None)}));
 }
